@@ -267,6 +267,8 @@ pub struct Recorder {
     pub batches: Mutex<Vec<Vec<usize>>>,
     pub cache_miss: AtomicU64,
     pub cache_hit: AtomicU64,
+    /// per-query logical budgets for searches running on the application's worker threads (0 = off)
+    pub budget: crate::hooks::Budget,
 }
 
 thread_local! {
@@ -275,6 +277,8 @@ thread_local! {
         NEXT.fetch_add(1, Ordering::Relaxed)
     };
     static DELAY_RNG: std::cell::RefCell<Option<Rng>> = const { std::cell::RefCell::new(None) };
+    /// (loop tops, ksp outer turns, ksp inner turns) of the query currently running on this thread
+    static STEPS: std::cell::Cell<(u64, u64, u64)> = const { std::cell::Cell::new((0, 0, 0)) };
 }
 
 fn qid_of(v: &Value) -> String {
@@ -292,7 +296,25 @@ fn qid_of(v: &Value) -> String {
 
 impl Recorder {
     pub fn new(delay_seed: u64, delay: bool) -> Recorder {
-        Recorder { events: Mutex::new(vec![]), seq: AtomicU64::new(0), delay_seed, delay, batches: Mutex::new(vec![]), cache_miss: AtomicU64::new(0), cache_hit: AtomicU64::new(0) }
+        Recorder { events: Mutex::new(vec![]), seq: AtomicU64::new(0), delay_seed, delay, batches: Mutex::new(vec![]), cache_miss: AtomicU64::new(0), cache_hit: AtomicU64::new(0), budget: crate::hooks::Budget::default() }
+    }
+    pub fn with_budget(mut self, b: crate::hooks::Budget) -> Recorder {
+        self.budget = b;
+        self
+    }
+    fn step(&self, which: usize, what: &str) {
+        let (mut a, mut b, mut c) = STEPS.with(|s| s.get());
+        match which {
+            0 => a += 1,
+            1 => b += 1,
+            _ => c += 1,
+        }
+        STEPS.with(|s| s.set((a, b, c)));
+        let over = (self.budget.steps > 0 && a + b + c > self.budget.steps) || (self.budget.ksp_outer > 0 && b > self.budget.ksp_outer) || (self.budget.ksp_inner > 0 && c > self.budget.ksp_inner);
+        if over {
+            STEPS.with(|s| s.set((0, 0, 0)));
+            std::panic::panic_any(crate::hooks::BudgetExceeded { steps: a + b + c, limit: self.budget.steps, last: what.to_string() });
+        }
     }
     fn push(&self, kind: &'static str, qid: String) {
         let seq = self.seq.fetch_add(1, Ordering::SeqCst);
@@ -328,7 +350,11 @@ impl Recorder {
                     *g = b.iter().map(|x| vec![x.len()]).map(|v| v).collect();
                 }
             }
+            Event::LoopTop { .. } => self.step(0, "LoopTop"),
+            Event::KspOuter { algorithm, .. } => self.step(1, &format!("KspOuter({algorithm})")),
+            Event::KspInner { algorithm, .. } => self.step(2, &format!("KspInner({algorithm})")),
             Event::QueryStart(q) => {
+                STEPS.with(|s| s.set((0, 0, 0)));
                 self.push("start", qid_of(q));
                 self.maybe_delay();
             }
@@ -424,6 +450,8 @@ fn round_sig(x: f64) -> String {
 fn project_route(r: &Value) -> Value {
     let path = match &r["path"] {
         Value::Array(a) => Value::Array(a.iter().map(|e| if e.is_object() { e["edge_id"].clone() } else { e.clone() }).collect()),
+        // geojson: the feature ids (properties carry the state vector, whose slot order is not fixed)
+        Value::Object(o) if o.contains_key("features") => Value::Array(o["features"].as_array().map(|f| f.iter().map(|x| x["id"].clone()).collect()).unwrap_or_default()),
         o => o.clone(),
     };
     let mut summary: Vec<(String, String)> = r["traversal_summary"].as_object().map(|o| o.iter().map(|(k, v)| (k.clone(), round_sig(v.as_f64().unwrap_or(f64::NAN)))).collect()).unwrap_or_default();
